@@ -59,3 +59,15 @@ Definition parse_show (c : list bool * bytes) : string :=
 Definition run_show2 (reqs : list (cfg * list op)) : string :=
   let '(b, ess, closed) := run_conn responses reqs in
   run_show reqs ++ "#" ++ parse_show (map (fun r => is_head (fst r)) (firstn (List.length ess) reqs), b).
+
+(** channel.writeHeaders(version, code, reason, [(name, value), ...]) followed by channel.write(body) *)
+Definition wh_show (c : cfg * N * bytes * list (text * text) * bytes) : string :=
+  let '(cf, code, reason, ps, body) := c in
+  match write_headers_pairs cf code reason ps with
+  | Bad e => "wh:" ++ show_outcome (OErr e) ++ "|" ++ digest []
+  | Good b => "wh:.|" ++ digest (b ++ body)
+  end.
+
+(** one case: a scripted connection, or a direct writeHeaders call in the pair form *)
+Definition run_case (c : list (cfg * list op) + (cfg * N * bytes * list (text * text) * bytes)) : string :=
+  match c with inl reqs => run_show2 reqs | inr w => wh_show w end.
